@@ -144,5 +144,29 @@ fn main() {
         println!("raw_invalid_fd {} 1 {}", closes(w), res.is_err() as i32);
         unsafe { libc::syscall(libc::SYS_close, r) };
     }
+    // descriptor NUMBERS at the edges: 0 (what pipe()/dup() hand to a process started without stdin) and a high one;
+    // accepted-then-removed and refused, with a delivery in between (runs last: it replaces this process's stdin)
+    for &target in &[0i32, 1000] {
+        let (r, w) = new_pipe();
+        let fd = unsafe { libc::dup2(w, target) };
+        unsafe { libc::syscall(libc::SYS_close, w) };
+        reset(fd);
+        let id = pipe::register_raw(libc::SIGUSR1, fd).unwrap();
+        unsafe { libc::raise(libc::SIGUSR1) };
+        println!("raw_pipe_fd{}_registered {} 0 {}", target, closes(fd), (fd == target) as i32);
+        signal_hook::low_level::unregister(id);
+        println!("raw_pipe_fd{}_unregistered {} 1 1", target, closes(fd));
+        let still = unsafe { libc::fcntl(fd, libc::F_GETFD) } != -1;
+        println!("raw_pipe_fd{}_open_afterwards {} 0 1", target, still as i32);
+        if still { unsafe { libc::syscall(libc::SYS_close, fd) }; }
+        let fd = unsafe { libc::dup2(r, target) };
+        reset(fd);
+        let res = pipe::register_raw(100, fd);
+        println!("raw_pipe_fd{}_err {} 1 {}", target, closes(fd), res.is_err() as i32);
+        let still = unsafe { libc::fcntl(fd, libc::F_GETFD) } != -1;
+        println!("raw_pipe_fd{}_err_open_afterwards {} 0 1", target, still as i32);
+        if still { unsafe { libc::syscall(libc::SYS_close, fd) }; }
+        unsafe { libc::syscall(libc::SYS_close, r) };
+    }
     std::panic::set_hook(quiet);
 }
